@@ -266,7 +266,7 @@ def toDictLS (kf vf : Value → M Value) (acc : KV) : VL → Option Err → M KV
   | x :: xs, e => do
     let k ← kf x
     let v ← vf x
-    if hashable k then toDictLS kf vf (Seq.dSet acc k v) xs e else fail .type
+    if hashable k then toDictLS kf vf (Seq.dSet acc k v) xs e else fail (keyErr k)
 
 def keysLS (f : Value → M Value) : VL → M (List (Except Err Value))
   | [] => pure []
@@ -515,7 +515,7 @@ def callMethodS (ev : EvS) (Ca : Nat) (bad : Err) (r : ObjS) (f : Fn) (args : Li
       let ko ← ev Ca k
       let kv ← liftR (toVS ko)
       let _ ← childCtx Ca
-      if hashable kv then pure (.data (.val ((Seq.dGet d kv).getD .null))) else fail .type
+      if hashable kv then pure (.data (.val ((Seq.dGet d kv).getD .null))) else fail (keyErr kv)
     | _ => fail bad
   | .get, [k, dflt] =>
     match r with
@@ -525,7 +525,7 @@ def callMethodS (ev : EvS) (Ca : Nat) (bad : Err) (r : ObjS) (f : Fn) (args : Li
       let dobj ← ev Ca dflt
       let dv ← liftR (toVS dobj)
       let _ ← childCtx Ca
-      if hashable kv then pure (.data (.val ((Seq.dGet d kv).getD dv))) else fail .type
+      if hashable kv then pure (.data (.val ((Seq.dGet d kv).getD dv))) else fail (keyErr kv)
     | _ => fail bad
   | .unpack, names =>
     match toIterS r with
@@ -621,20 +621,53 @@ def callFnS (ev : EvS) (C : Nat) (f : Fn) (args : List Expr) (kw : List (Expr ×
         else do let r ← ev C recv; callMethodS ev C .noFunction r f rest
   | _ => fail .unknownFunction
 
+/-- neither a dictionary nor a collection: `get_property`, whose delegate does not find `#property#name` -/
+def memberNoneS (K : Nat) : M Value := do
+  let Dt ← childCtx K
+  let G ← childCtx Dt               -- `get_property`
+  let _ ← childCtx G                -- its delegate, looking up `#property#name`
+  fail .unknownFunction
+
+mutual
 /-- `#operator_.(element, name)` through the `Delegate` of `collection_attribution`, whose call context
-    is `K`: a delegate child per element, the operator's call context in it -/
-def memberVS (K : Nat) (name : Name) (x : Value) : M Value :=
-  match x with
+    is `K`: a delegate child per element, the operator's call context in it.  For an element that is a
+    collection itself that operator is `collection_attribution` again: ITS call context `K2` is the parent of
+    the delegate children of the nested elements (computed eagerly, like every generator of this model). -/
+def memberVS (K : Nat) (name : Name) : Value → M Value
   | .dict d => do
     let Dt ← childCtx K
     let _ ← childCtx Dt               -- `dict_keyword_access`
     match Seq.dGet d (.str name) with | some v => pure v | none => fail .key
-  | .tuple _ | .list _ | .set _ | .iter _ => fail .outOfDomain
-  | _ => do
+  | .tuple l => do
     let Dt ← childCtx K
-    let G ← childCtx Dt               -- `get_property`
-    let _ ← childCtx G                -- its delegate, looking up `#property#name`
-    fail .unknownFunction
+    let K2 ← childCtx Dt              -- `collection_attribution`
+    let s ← memberVSL K2 name l
+    liftR (toV (.lazy s.1 s.2))
+  | .list l => do
+    let Dt ← childCtx K
+    let K2 ← childCtx Dt
+    let s ← memberVSL K2 name l
+    liftR (toV (.lazy s.1 s.2))
+  | .iter l => do
+    let Dt ← childCtx K
+    let K2 ← childCtx Dt
+    let s ← memberVSL K2 name l
+    liftR (toV (.lazy s.1 s.2))
+  | .set _ => fail .outOfDomain
+  | .null => memberNoneS K
+  | .bool _ => memberNoneS K
+  | .int _ => memberNoneS K
+  | .flt _ => memberNoneS K
+  | .str _ => memberNoneS K
+  | .host _ => memberNoneS K
+/-- `map(lambda t: operator(t, name), l)` in the call context `K` (= `mapLS (memberVS K name) l none`) -/
+def memberVSL (K : Nat) (name : Name) : List Value → M (VL × Option Err)
+  | [] => pure ([], none)
+  | x :: xs => do
+    match ← captureS (memberVS K name x) with
+    | .error er => pure ([], some er)
+    | .ok v => let r ← memberVSL K name xs; pure (v :: r.1, r.2)
+end
 
 /-- `receiver.name` called in context `C` -/
 def memberOfS (C : Nat) (r : ObjS) (name : Name) : M ObjS :=
@@ -642,6 +675,7 @@ def memberOfS (C : Nat) (r : ObjS) (name : Name) : M ObjS :=
   | .data (.val (.dict d)) => do
     let _ ← childCtx C
     match Seq.dGet d (.str name) with | some v => pure (.data (.val v)) | none => fail .key
+  | .data (.val (.set _)) => fail .outOfDomain
   | r =>
     match toIterS r with
     | some (items, err) => do
